@@ -416,6 +416,31 @@ func fieldByName(v reflect.Value, name string) (reflect.Value, error) {
 	return f, nil
 }
 
+// settableFieldByName is fieldByName for a destination that is being built: embedded pointers on the way to a promoted
+// field are nil in a fresh value and are instantiated here, the way instantiateIfNeeded does it for named pointer fields.
+func settableFieldByName(v reflect.Value, name string) (reflect.Value, error) {
+	sf, ok := v.Type().FieldByName(name)
+	if !ok {
+		return reflect.Value{}, nil
+	}
+	for i, x := range sf.Index {
+		if i > 0 && v.Kind() == reflect.Ptr {
+			if v.IsNil() {
+				if !v.CanSet() {
+					return reflect.Value{}, fmt.Errorf("field mapping through an embedded pointer that cannot be set. field=%v, type=%v", name, v.Type())
+				}
+				fresh := reflect.New(v.Type().Elem())
+				v.Set(fresh)
+				v = fresh.Elem()
+			} else {
+				v = v.Elem()
+			}
+		}
+		v = v.Field(x)
+	}
+	return v, nil
+}
+
 func checkAndExtractFromField(fromField string, input reflect.Value) (reflect.Value, error) {
 	f, err := fieldByName(input, fromField)
 	if err != nil {
@@ -528,7 +553,7 @@ func checkAndExtractToField(toField string, output, toSet reflect.Value) (field 
 		return reflect.Value{}, fmt.Errorf("field mapping to a struct field but output is not a struct, type=%v", output.Type())
 	}
 
-	field, err = fieldByName(output, toField)
+	field, err = settableFieldByName(output, toField)
 	if err != nil {
 		return reflect.Value{}, err
 	}
